@@ -37,6 +37,8 @@ Leafs ==
                            T("set", "y", X, ""), T("setg", "x", ELit(<<"g">>), ""), T("include", "inc", NoE, ""), T("include", "inc2", NoE, "")}
     [] Theme = "capture" -> {T("text", "t2", NoE, ""), T("print", "", X, ""), T("print", "", Dv, ""), T("print", "", Iv, ""),
                              T("include", "incd", NoE, ""), T("set", "x", Dv, "")}
+    \* "nest": captures inside captures (to depth 3) around includes and prints -- few tokens, so 6 of them are affordable
+    [] Theme = "nest" -> {T("text", "t2", NoE, ""), T("print", "", Dv, ""), T("print", "", X, ""), T("include", "incd", NoE, "")}
     [] Theme = "global" -> {T("text", "t1", NoE, ""), T("print", "", X, ""), T("print", "", Iv, ""), T("setg", "x", Iv, ""), T("set", "x", Iv, ""),
                             T("print", "", ELoop("index"), "")}
     [] Theme = "escape" -> {T("text", "t2", NoE, ""), T("print", "", Dv, ""), T("print", "", ELit(<<"'", "<">>), ""),
@@ -48,17 +50,19 @@ Leafs ==
                             T("print", "", X, ""), T("print", "", EFilt("upper", X), ""), T("print", "", EAttr(EVar("m"), "a"), ""),
                             T("print", "", ENum(7), ""), T("include", "incd", NoE, ""), T("set", "x", Dv, ""),
                             T("set", "x", EFilt("safe", Dv), "")}
-IfConds == CASE Theme = "flow" -> {X, Iv, ELoop("first")} [] Theme = "scope" -> {X, Y} [] OTHER -> {X}
+IfConds == CASE Theme = "flow" -> {X, Iv, ELoop("first")} [] Theme = "scope" -> {X, Y} [] Theme = "nest" -> {} [] OTHER -> {X}
 ForHeads ==
   CASE Theme = "flow" -> {T("for", "i", EVar("xs"), ""), T("for", "i", EVar("es"), ""), T("for", "i", EVar("s"), ""), T("for", "x", EVar("xs"), ""), T("for", "i", EVar("u"), "")}
     [] Theme = "scope" -> {T("for", "x", EVar("xs"), ""), T("for", "i", EVar("xs"), "")}
     [] Theme = "capture" -> {T("for", "i", EVar("xs"), "")}
     [] Theme = "global" -> {T("for", "i", EVar("xs"), "")}
+    [] Theme = "nest" -> {}
     [] Theme = "escape" -> {T("for", "i", Dv, ""), T("forkv", "i", EVar("m"), "x")}
 CapHeads ==
   CASE Theme = "capture" -> {T("setblock", "x", NoE, ""), T("setblock", "x", NoE, "upper"), T("setgblock", "x", NoE, ""), T("filter", "upper", NoE, ""), T("filter", "safe", NoE, "")}
     [] Theme = "escape" -> {T("setblock", "x", NoE, ""), T("setblock", "x", NoE, "upper"), T("filter", "upper", NoE, ""), T("filter", "wrap_safe", NoE, "")}
     [] Theme = "global" -> {T("setgblock", "x", NoE, ""), T("setblock", "x", NoE, ""), T("setgblock", "x", NoE, "upper")}
+    [] Theme = "nest" -> {T("setblock", "x", NoE, ""), T("filter", "upper", NoE, "")}
     [] OTHER -> {}
 HasElif == Theme = "flow"
 HasBrk == Theme \in {"flow", "capture"}
@@ -70,12 +74,14 @@ Base == [d |-> DStr, xs |-> ArrV(<<IntV(1), IntV(2)>>), es |-> ArrV(<<>>), s |->
          m |-> MapV(<<"a">>, <<StrV(<<"\"">>, FALSE)>>)]
 Env(ctx, gctx, ae) == [ctx |-> ctx, gctx |-> gctx, ae |-> ae, esc |-> "html", lib |-> Lib, texts |-> Texts]
 Envs ==
-  CASE Theme \in {"flow", "capture", "global"} -> << Env(Base, EmptyF, FALSE), Env(("x" :> IntV(0)) @@ Base, ("y" :> IntV(5)), FALSE) >>
+  CASE Theme \in {"flow", "capture", "global", "nest"} -> << Env(Base, EmptyF, FALSE), Env(("x" :> IntV(0)) @@ Base, ("y" :> IntV(5)), FALSE) >>
     [] Theme = "scope" -> << Env(Base, EmptyF, FALSE),
                              Env(("x" :> StrV(<<"c">>, FALSE)) @@ Base, ("x" :> StrV(<<"G">>, FALSE)) @@ ("y" :> StrV(<<"H">>, FALSE)), FALSE),
                              Env(Base, ("x" :> StrV(<<"G">>, FALSE)), FALSE),
                              Env(("y" :> StrV(<<"k">>, FALSE)) @@ Base, EmptyF, FALSE) >>
-    [] Theme = "escape" -> << Env(Base, EmptyF, TRUE), Env(Base, EmptyF, FALSE), Env(("x" :> StrV(<<">">>, FALSE)) @@ Base, EmptyF, TRUE),
+    \* (third environment: x bound, and d a string of 26 characters -- strings of 22 bytes and more are stored differently)
+    [] Theme = "escape" -> << Env(Base, EmptyF, TRUE), Env(Base, EmptyF, FALSE),
+                              Env(("x" :> StrV(<<">">>, FALSE)) @@ ("d" :> StrV(<<"<", "a", "&", "l", "o", "n", "g", "e", "r", "-", "t", "h", "a", "n", "-", "2", "2", "-", "b", "y", "t", "e", "s", "'", "\"", ">">>, FALSE)) @@ Base, EmptyF, TRUE),
                               [Env(Base, EmptyF, TRUE) EXCEPT !.esc = "brackets"] >>
 
 VARIABLES prog, open, done
